@@ -201,6 +201,110 @@ let queuelabels_line line =
   finish 20;
   (match (!st).Queue.rst with Queue.Idle -> !last | Queue.Blocked _ -> "BLOCKED-FOREVER")
 
+(* ---- driver.rs / registry.rs through the scripted adapter ------------------------------------- *)
+let split c s = Stdlib.String.split_on_char c s
+
+let parse_ucall t =
+  match split '.' t with
+  | [ "conn"; ok; peer ] -> Driver.UConnect (ok = "1", n_of_string peer)
+  | [ "listen"; ok ] -> Driver.UListen (ok = "1")
+  | [ "send"; id; to_; len; ans ] ->
+      let st = match ans with "S" -> Driver.Sent | "M" -> Driver.MaxPacketSizeExceeded | "F" -> Driver.ResourceNotFound | _ -> Driver.ResourceNotAvailable in
+      Driver.USend ((n_of_string id, n_of_string to_), n_of_string len, st)
+  | [ "rm"; id ] -> Driver.URemove (n_of_string id)
+  | [ "ready"; id ] -> Driver.UIsReady (n_of_string id)
+  | _ -> failwith ("bad ucall " ^ t)
+
+let parse_ucalls t = if t = "-" then [] else Stdlib.List.map parse_ucall (split '+' t)
+
+let parse_label w =
+  match split ':' w with
+  | [ "c"; u ] -> Driver.LCall (parse_ucall u)
+  | [ "p"; id; rd; race0; pend; cbc; chunks; read; race; cbd; accs ] ->
+      let chunks =
+        if chunks = "-" then []
+        else Stdlib.List.map (fun c -> match split '/' c with [ d; cb ] -> (n_of_string d, parse_ucalls cb) | _ -> failwith "chunk") (split ',' chunks)
+      in
+      let accs =
+        if accs = "-" then []
+        else
+          Stdlib.List.map
+            (fun a ->
+              match split '/' a with
+              | [ one ] -> (match split '.' one with [ "r"; peer ] -> Driver.AccRemote (n_of_string peer) | _ -> failwith "acc")
+              | [ d; cb ] -> (match split '.' d with [ "d"; peer; data ] -> Driver.AccData (n_of_string peer, n_of_string data, parse_ucalls cb) | _ -> failwith "acc")
+              | _ -> failwith "acc")
+            (split ',' accs)
+      in
+      let a =
+        { Driver.a_race0 = parse_ucalls race0;
+          a_pending = (match pend with "R" -> Driver.PReady | "I" -> Driver.PIncomplete | _ -> Driver.PDisconnected);
+          a_cb_conn = parse_ucalls cbc; a_chunks = chunks;
+          a_read = (if read = "D" then Driver.RDisconnected else Driver.RWaitNextEvent);
+          a_race = parse_ucalls race; a_cb_disc = parse_ucalls cbd; a_accepts = accs }
+      in
+      Driver.LProcess (n_of_string id, (if rd = "R" then Driver.Read else Driver.Write), a)
+  | _ -> failwith ("bad label " ^ w)
+
+let status_char = function Driver.Sent -> "S" | Driver.MaxPacketSizeExceeded -> "M" | Driver.ResourceNotFound -> "F" | Driver.ResourceNotAvailable -> "A"
+
+let obs_str = function
+  | Driver.OEv (Driver.Connected ((id, p), ok)) -> Stdlib.Printf.sprintf "E:C:%s:%s:%d" (string_of_n id) (string_of_n p) (if ok then 1 else 0)
+  | Driver.OEv (Driver.Accepted ((id, p), l)) -> Stdlib.Printf.sprintf "E:A:%s:%s:%s" (string_of_n id) (string_of_n p) (string_of_n l)
+  | Driver.OEv (Driver.Message ((id, p), d)) -> Stdlib.Printf.sprintf "E:M:%s:%s:%s" (string_of_n id) (string_of_n p) (string_of_n d)
+  | Driver.OEv (Driver.Disconnected (id, p)) -> Stdlib.Printf.sprintf "E:D:%s:%s" (string_of_n id) (string_of_n p)
+  | Driver.ORet (_, Driver.RConnect (Some (id, p))) -> Stdlib.Printf.sprintf "R:conn:%s:%s" (string_of_n id) (string_of_n p)
+  | Driver.ORet (_, Driver.RConnect None) -> "R:conn:none"
+  | Driver.ORet (_, Driver.RListen (Some id)) -> "R:listen:" ^ string_of_n id
+  | Driver.ORet (_, Driver.RListen None) -> "R:listen:none"
+  | Driver.ORet (Driver.USend ((id, _), _, _), Driver.RSend s) -> Stdlib.Printf.sprintf "R:send:%s:%s" (string_of_n id) (status_char s)
+  | Driver.ORet (_, Driver.RSend s) -> "R:send:?:" ^ status_char s
+  | Driver.ORet (Driver.URemove id, Driver.RRemove b) -> Stdlib.Printf.sprintf "R:rm:%s:%d" (string_of_n id) (if b then 1 else 0)
+  | Driver.ORet (_, Driver.RRemove b) -> if b then "R:rm:?:1" else "R:rm:?:0"
+  | Driver.ORet (_, Driver.RIsReady None) -> "R:ready:none"
+  | Driver.ORet (_, Driver.RIsReady (Some b)) -> if b then "R:ready:1" else "R:ready:0"
+  | Driver.OAdapterSend (id, len) -> Stdlib.Printf.sprintf "AS:%s:%s" (string_of_n id) (string_of_n len)
+  | Driver.OAdapterSendTo (id, to_, len) -> Stdlib.Printf.sprintf "AT:%s:%s:%s" (string_of_n id) (string_of_n to_) (string_of_n len)
+
+(* a case line may carry the implementation's own trace after " || " *)
+let split_trailer line =
+  match Stdlib.String.index_opt line '|' with
+  | Some i when i + 1 < Stdlib.String.length line && line.[i + 1] = '|' ->
+      (Stdlib.String.sub line 0 i, Stdlib.String.sub line (i + 2) (Stdlib.String.length line - i - 2))
+  | _ -> (line, "")
+
+let driver_trace line = snd (Driver.drun (Driver.dinit (n_of_int 5)) (Stdlib.List.map parse_label (words (fst (split_trailer line)))))
+
+let parse_obs t =
+  let dummy = Driver.UIsReady (n_of_int 0) in
+  match split ':' t with
+  | [ "E"; "C"; id; p; ok ] -> Driver.OEv (Driver.Connected ((n_of_string id, n_of_string p), ok = "1"))
+  | [ "E"; "A"; id; p; l ] -> Driver.OEv (Driver.Accepted ((n_of_string id, n_of_string p), n_of_string l))
+  | [ "E"; "M"; id; p; d ] -> Driver.OEv (Driver.Message ((n_of_string id, n_of_string p), n_of_string d))
+  | [ "E"; "D"; id; p ] -> Driver.OEv (Driver.Disconnected (n_of_string id, n_of_string p))
+  | [ "R"; "conn"; "none" ] -> Driver.ORet (dummy, Driver.RConnect None)
+  | [ "R"; "conn"; id; p ] -> Driver.ORet (dummy, Driver.RConnect (Some (n_of_string id, n_of_string p)))
+  | [ "R"; "listen"; "none" ] -> Driver.ORet (dummy, Driver.RListen None)
+  | [ "R"; "listen"; id ] -> Driver.ORet (dummy, Driver.RListen (Some (n_of_string id)))
+  | [ "R"; "send"; _; _ ] -> Driver.ORet (dummy, Driver.RSend Driver.Sent)
+  | [ "R"; "rm"; id; b ] -> Driver.ORet (Driver.URemove (n_of_string id), Driver.RRemove (b = "1"))
+  | [ "R"; "ready"; _ ] -> Driver.ORet (dummy, Driver.RIsReady None)
+  | [ "AS"; id; len ] -> Driver.OAdapterSend (n_of_string id, n_of_string len)
+  | [ "AT"; id; to_; len ] -> Driver.OAdapterSendTo (n_of_string id, n_of_string to_, n_of_string len)
+  | _ -> failwith ("bad trace item " ^ t)
+
+let driver_line line = Stdlib.String.concat " " (Stdlib.List.map obs_str (driver_trace line))
+
+(* the extracted property predicates on the MODEL's trace of the same script: "<lifecycle ok> <max ends per id>" *)
+let driverprops_line line =
+  (* the extracted Coq predicates evaluated on the IMPLEMENTATION's trace (after " || ") *)
+  let tr = Stdlib.List.map parse_obs (words (snd (split_trailer line))) in
+  let ids = Stdlib.List.sort_uniq compare (Stdlib.List.filter_map (function Driver.OEv (Driver.Disconnected (id, _)) -> Some id | Driver.ORet (Driver.URemove id, Driver.RRemove true) -> Some id | _ -> None) tr) in
+  let ids = Stdlib.List.filter (fun id -> ResId.resource_type ResId.gen_layout id = ResId.Remote) ids in
+  let rec int_of_nat = function Datatypes.O -> 0 | Datatypes.S n -> 1 + int_of_nat n in
+  let worst = Stdlib.List.fold_left (fun m id -> max m (int_of_nat (Driver.count_ends id tr))) 0 ids in
+  Stdlib.Printf.sprintf "%b %d" (Driver.lifecycle_ok_b tr) worst
+
 let () =
   let core = Sys.argv.(1) in
   let mode = if Stdlib.Array.length Sys.argv > 2 && Sys.argv.(2) = "wrapping" then Base.Wrapping else Base.Checked in
@@ -212,6 +316,8 @@ let () =
     | "queue" -> queue_line
     | "queuespec" -> queuespec_line
     | "queuelog" -> queuelog_line
+    | "driver" -> driver_line
+    | "driverprops" -> driverprops_line
     | "queuelabels" -> queuelabels_line
     | _ -> failwith ("unknown core " ^ core)
   in
